@@ -174,9 +174,42 @@ def _np_call(m, node, name, args, kwargs):
     return NotImplemented
 
 
-def write_frames(repo, sizes: Dict[str, int], buffer: int, frames_with_records: int) -> Tuple[Group, List[str]]:
+class _FailingMachine(ShapeMachine):
+    """every write into the model output file is a point where the n-th one can fail (before it takes effect)"""
+
+    def _tick(self, what):
+        f = self.fail
+        f["count"] += 1
+        f["points"].append(what)
+        if f["count"] == f["at"]:
+            from .run_trace import _Interrupt
+            raise (_Interrupt if f["exc"] == "KeyboardInterrupt" else Raised)(f["exc"])
+
+    def assign(self, t, v):
+        if isinstance(t, ast.Subscript):
+            base = self.ev(t.value)
+            if isinstance(base, (Group, Attrs)) and repr(base).split()[-1].startswith(("file", "attrs of file")) is not None and self._in_output(base):
+                self._tick(f"{base!r}[{ast.unparse(t.slice)}] = ...")
+        super().assign(t, v)
+
+    @staticmethod
+    def _in_output(base):
+        path = base.path if isinstance(base, Group) else base.group.path
+        return path.startswith("file")
+
+    def call(self, e):
+        f = e.func
+        if isinstance(f, ast.Attribute) and f.attr in ("create_group", "create_dataset", "update", "require_group"):
+            base = self.ev(f.value)
+            if isinstance(base, (Group, Attrs)) and self._in_output(base):
+                self._tick(f"{base!r}.{f.attr}(...)")
+        return super().call(e)
+
+
+def write_frames(repo, sizes: Dict[str, int], buffer: int, frames_with_records: int, fail=None) -> Tuple[Group, List[str]]:
     """Follow DataHandler.save_time_step for frame 0 (no records) and `frames_with_records` further frames; returns the model
-    output file and the problems met while writing."""
+    output file and the problems met while writing.  With fail = {"at": n, "exc": name} the n-th write into the output file during
+    the last frame raises that exception; the machine is returned as third element."""
     C = repo.cls(RUNNER, "DataHandler")
     f = C.methods["save_time_step"]
     out = Group("file")
@@ -203,8 +236,7 @@ def write_frames(repo, sizes: Dict[str, int], buffer: int, frames_with_records: 
         r = _np_call(m, node, name, args, kwargs)
         return r
 
-    class _M(ShapeMachine):
-        pass
+    _M = _FailingMachine if fail is not None else ShapeMachine
     env = dict(module_constants(repo.module(RUNNER).tree))
     env["self"] = Opaque("self")
     mach = _M(env, lambda t: NotImplemented, call, fuel=64, undecided=lambda t: None)
@@ -219,10 +251,14 @@ def write_frames(repo, sizes: Dict[str, int], buffer: int, frames_with_records: 
         params = [a.arg for a in f.node.args.args]
         if params != ["self", "state", "data", "running_state"]:
             raise AnalysisError(f"DataHandler.save_time_step has the parameters {params}")
+        if fail is not None:
+            mach.fail = {"at": fail["at"] if i == frames_with_records else -1, "exc": fail["exc"], "count": 0, "points": []}
         kind, val = mach.run_function(f.node)
         if kind != "return":
             problems.append(f"writing frame {i} raises {val}")
             break
+    if fail is not None:
+        return out, problems, mach
     return out, problems
 
 
